@@ -275,5 +275,8 @@ def write_evidence(spec, res, tier, seed, wall, violations, met):
               assumptions=spec.get("assumptions", []), wall_s=round(wall, 1), violations=violations)
     os.makedirs(os.path.join(core.ROOT, "evidence"), exist_ok=True)
     p = os.path.join(core.ROOT, "evidence", prop + ".json")
+    if os.path.realpath(core.REPO) != "/repo":
+        # a development run against a scratch (mutated) copy of the repository never overwrites the real record
+        p = os.path.join(core.ROOT, "evidence", prop + ".scratch-repo.json")
     json.dump(ev, open(p + ".tmp", "w"), indent=1)
     os.replace(p + ".tmp", p)
